@@ -10,7 +10,7 @@ from sa.feval import FevalError, feval
 from sa.model import AnalysisError, FunctionInfo, loc, norm_src
 
 from .c02 import module_consts
-from .common import data_classes, isinstance_arms, returns_of
+from .common import attr_chain, data_classes, isinstance_arms, returns_of
 from .json_model import (decoder_tags, deref, encoder_tags, find_json_functions, load_schema, schema_accepts,
                          string_constants)
 from .normalize_model import NOFOLD, field_default
@@ -45,6 +45,7 @@ def run(an: Analysis, rep):
     rep.run(r074, an, rep)
     rep.run(r07a, an, rep, enc)
     rep.run(r07b, an, rep, defs)
+    rep.run(r07r, an, rep)
     rep.run(r075, an, rep, enc, cdec)
     rep.run(r076, an, rep, enc, defs)
     rep.run(r077, an, rep, enc)
@@ -161,6 +162,40 @@ def r071(an, rep, enc: FunctionInfo, cdec: FunctionInfo, defs):
                     f"encoder applies {e}, decoder applies {sorted(decs & CODEC_INVERSES[e])}" if ok else
                     f"the encoder writes this tag with {e} but the decoder arm applies {sorted(decs) or 'no library codec'}, not its inverse ({sorted(CODEC_INVERSES[e])}): values whose "
                     f"text differs between the two alphabets / formats come back changed (e.g. bytes whose base64 text contains '+' or '/')")
+    # ---- text codecs: what ascii() / repr() wrote is handed to literal_eval as it is (the pair is an inverse only on the whole literal, quotes included:
+    #      ascii() picks double quotes for a string that holds an apostrophe)
+    from .encode_model import inline_locals as _il
+    for s_, node in sorted(etags.items(), key=lambda x: sorted(x[0])):
+        for k_, v_ in zip(node.value.keys, node.value.values):
+            v2 = _il(enc.node, v_)
+            calls = [c for c in ast.walk(v2) if isinstance(c, ast.Call) and isinstance(c.func, ast.Name) and c.func.id in ("ascii", "repr")]
+            name = "+".join(sorted(s_))
+            jcalls = [c for c in ast.walk(v2) if isinstance(c, ast.Call) and (attr_chain(c.func) or "") in ("json.dumps", "dumps", "json.encoder.encode_basestring_ascii", "encode_basestring_ascii")]
+            if jcalls and "str" in {n for ns, body, nd in isinstance_arms(enc, enc.params[0])[0] for n in ns if any(x is node for b in body for x in ast.walk(b))}:
+                rep.add("R07.1", f"tag {{{name}}}::the text codec is an inverse pair on every string", False, loc(enc.module, v_),
+                        f"`{norm_src(jcalls[0])[:50]}` / json.loads is not an inverse pair on strings: JSON escapes a code point above U+FFFF as a surrogate PAIR, so json.loads fuses a high surrogate "
+                        f"followed by a low surrogate - two code points in the Python string (`'\\ud83d\\ude00'`) - into one character: the constant / name / docstring comes back as another string")
+                continue
+            if not calls:
+                continue
+            whole = v2 is calls[0] or (isinstance(v2, ast.Call) and isinstance(v2.func, ast.Name) and v2.func.id == "str" and v2.args and v2.args[0] is calls[0])
+            surgery = [x for x in ast.walk(v2) if isinstance(x, ast.Subscript) and isinstance(x.slice, ast.Slice)] + \
+                      [x for x in ast.walk(v2) if isinstance(x, ast.Call) and isinstance(x.func, ast.Attribute) and x.func.attr in ("strip", "lstrip", "rstrip", "replace", "removeprefix", "removesuffix")] + \
+                      [x for x in ast.walk(v2) if isinstance(x, (ast.BinOp, ast.JoinedStr))]
+            if not whole and not surgery:
+                raise AnalysisError(f"{enc.qual}: the text written under {k_.value!r} is `{norm_src(v2)[:60]}`: whether it is the whole literal {calls[0].func.id}() returned is not decided")
+            arms = [(k, read, n) for k, read, n in dtags if k in s_]
+            dec_whole = True
+            for k, read, n in arms:
+                for c in ast.walk(n):
+                    if isinstance(c, ast.Call) and (attr_chain(c.func) or "").split(".")[-1] == "literal_eval" and c.args:
+                        a0 = c.args[0]
+                        if not (isinstance(a0, ast.Subscript) and isinstance(a0.slice, ast.Constant)):
+                            dec_whole = False
+            rep.add("R07.1", f"tag {{{name}}}::the literal written by {calls[0].func.id}() is read back whole", whole and dec_whole, loc(enc.module, v_),
+                    f"encoder writes {norm_src(v2)}, decoder evaluates exactly that text" if whole and dec_whole else
+                    f"the encoder writes `{norm_src(v2)[:70]}` / the decoder rebuilds a literal around the text: {calls[0].func.id}() chooses the quote character by content (double quotes when the string "
+                    f"holds an apostrophe and no double quote), so a literal cut open and re-quoted by hand is a different string or a SyntaxError for \"it's \\udc80\"")
     # ---- the complex arm of the decoder rebuilds the value with complex(real part, imaginary part)
     for k, read, n in dtags:
         if k in ("real", "imag") or {"real", "imag"} <= read:
@@ -797,6 +832,20 @@ def r07a(an, rep, enc: FunctionInfo, rule="R07.4"):
             f"{len(W)} witness (default, value) pairs: hidden iff value == default" if not bad else
             f"{bad[0]} - the encoder leaves the field out, the decoder fills in the default, and the value is lost (a function whose docstring is the empty string loads back with "
             f"docstring None; a position override 0 loads back as 'no override'); {len(bad)} of {len(W)} witness pairs wrong")
+
+
+# Places where from_json_data stops with an exception, confirmed by reading: (function, exception) -> (how many, what is refused).
+JSON_DECODER_REJECTIONS = {
+    ("code_data._json_data::arg_from_json", "ValueError"): (2, "an operand that is neither an int nor an object / an object with none of the operand keys: not something to_json_data writes (R07.1 compares the keys)"),
+    ("code_data._json_data::code_data_from_json", "ValueError"): (1, "a code object that is not a JSON object"),
+    ("code_data._json_data::instruction_from_json", "ValueError"): (1, "an instruction that is not a JSON object"),
+    ("code_data._json_data::constant_value_from_json", "NotImplementedError"): (2, "a constant object with none of the constant tags / a float tag other than inf, -inf, nan: R07.1 and R07.3 compare tags and special values with the encoder"),
+}
+
+
+def r07r(an, rep, rule="R07.R"):
+    from .common import rejection_paths_rule
+    rejection_paths_rule(an, rep, rule, ["from_json"], JSON_DECODER_REJECTIONS, "from_json_data")
 
 
 def r07b(an, rep, defs, rule="R07.8"):
